@@ -111,7 +111,8 @@ pub fn run_sort(c: &Case) -> Result<(Built, Vec<DltMessage>, bool), crate::guard
         .enumerate()
         .map(|(i, m)| {
             let ext = if m.ctrl_request {
-                Some(DltExtendedHeader { verb_mstp_mtin: (3 << 1) | (1 << 4), noar: 0, apid: DltChar4::from_buf(b"DA1\0"), ctid: DltChar4::from_buf(b"DC1\0") })
+                // control request (MSTP 3, MTIN 1), with and without the verbose flag (derived from the message number)
+                Some(DltExtendedHeader { verb_mstp_mtin: (3 << 1) | (1 << 4) | ((i as u8 / 2) & 1), noar: 0, apid: DltChar4::from_buf(b"DA1\0"), ctid: DltChar4::from_buf(b"DC1\0") })
             } else {
                 None
             };
@@ -151,7 +152,9 @@ pub fn run_sort(c: &Case) -> Result<(Built, Vec<DltMessage>, bool), crate::guard
 }
 
 fn calc_time(m: &DltMessage, starts: &HashMap<u32, u64>) -> u64 {
-    if m.is_ctrl_request() {
+    // the harness' own reading of "control request": message type control (3), type info request (1), whatever the verbose flag
+    let is_ctrl_request = m.extended_header.as_ref().map_or(false, |e| (e.verb_mstp_mtin >> 1) & 7 == 3 && (e.verb_mstp_mtin >> 4) == 1);
+    if is_ctrl_request {
         m.reception_time_us
     } else {
         let c = starts.get(&m.lifecycle).copied().unwrap_or(0) + m.timestamp_dms as u64 * 100;
